@@ -129,7 +129,7 @@ def gen_case(rng, tier, ctx, i):
         from . import c04
         ctx.count("count:bounded-sweep-formulas")
         return {"recipe": recipes.strip(c04.next_sweep(i, ctx.seed))}
-    o = common.varied_opts(rng, tier, p_int=0.2, p_big=0.05)
+    o = common.varied_opts(rng, tier, p_int=0.2, p_big=0.05, p_window=0.15)
     if rng.random() < 0.5:
         o.kinds = ["Imply", "Not", "XNor", "All", "Any", "AtLeast", "AtMost", "Xor"]
     rec = common.model_case(rng, tier, o)
